@@ -66,28 +66,31 @@ def make_analysis(ctx):
 def _reset_on_every_exit(ctx, fn, K, fld, ana) -> bool:
     """Accumulator idiom: every exit (normal and exceptional) of the entry point
     is reached with self.<fld> reset (re-bound, .clear()ed, or known empty by a
-    falsy test) after the last mutation.  Interprocedural through self-calls."""
-    memo = {}
+    falsy test) after the last mutation.  Interprocedural through self-calls:
+    each callee is summarised as a transformer of the 'dirty' bit."""
+    memo: dict = {}
+    mutated = [False]
 
-    def summ(f, depth=0):
-        # returns (clean_at_normal_exit, clean_at_exc_exit, mutates)
-        if f in memo:
-            return memo[f]
+    def run(f, init, depth):
+        """(dirty at normal exit, dirty at exceptional exit) starting from `init`."""
+        key = (f, init)
+        if key in memo:
+            return memo[key]
         if depth > 6:
-            return (True, True, False)
-        memo[f] = (True, True, False)
+            return (init, init)
+        memo[key] = (init, init)
         sn = f.self_name
         g = CFG(f.node)
-        mut = [False]
 
         def is_fld(e):
             return isinstance(e, ast.Attribute) and e.attr == fld and isinstance(e.value, ast.Name) and e.value.id == sn
+
+        exc_from_calls = [False]
 
         def transfer(node, dirty):
             src = node.ast
             if src is None:
                 return dirty
-            out_exc = None
             for n in ordered(src):
                 if isinstance(n, ast.Attribute) and is_fld(n) and isinstance(n.ctx, ast.Store):
                     dirty = False
@@ -97,49 +100,75 @@ def _reset_on_every_exit(ctx, fn, K, fld, ana) -> bool:
                             dirty = False
                         elif n.func.attr in ("append", "extend", "insert", "add", "update", "__setitem__"):
                             dirty = True
-                            mut[0] = True
+                            mutated[0] = True
                     elif isinstance(n.func.value, ast.Name) and n.func.value.id == sn and K is not None:
                         m = K.lookup(n.func.attr)
                         if m and m[1] == "method":
-                            sub = summ(m[2], depth + 1)
-                            if sub[2]:
-                                mut[0] = True
-                                # the callee's exceptional exit propagates
-                                out_exc = dirty or not sub[1] if out_exc is None else out_exc
-                                if not sub[1]:
-                                    out_exc = True
-                                dirty = not sub[0]
-                elif isinstance(n, ast.Subscript) and is_fld(n.value) and isinstance(n.ctx, (ast.Store,)):
+                            nd, xd = run(m[2], dirty, depth + 1)
+                            # an exception escaping the callee escapes this function too unless caught here
+                            if xd and not _in_try(f, n):
+                                exc_from_calls[0] = True
+                            dirty = nd
+                elif isinstance(n, ast.Subscript) and is_fld(n.value) and isinstance(n.ctx, ast.Store):
                     dirty = True
-                    mut[0] = True
+                    mutated[0] = True
             if node.kind == "test":
                 t = node.ast
                 if is_fld(t):
                     return {"true": dirty, "false": False, None: dirty}
                 if isinstance(t, ast.UnaryOp) and isinstance(t.op, ast.Not) and is_fld(t.operand):
                     return {"true": False, "false": dirty, None: dirty}
-            if out_exc is not None:
-                return {"exc": out_exc, None: dirty}
             return dirty
 
-        IN = forward(g, False, transfer, lambda a, b: a or b)
-        # callee exceptions inside this function with no try: propagate as exceptional exit
-        exc_dirty = IN.get(g.rexit, False)
-        # calls to self-methods that may raise with dirty state
-        for node in g.nodes:
-            if node.ast is None or isinstance(node.ast, list):
+        IN = forward(g, init, transfer, lambda a, b: a or b)
+        # exceptional exit: explicit raise / assert edges only (implicit exceptions of calls inside try
+        # bodies are not assumed to escape, DESIGN §2.4)
+        xdirty = False
+        for pnode, lab in g.rexit.pred:
+            if lab == "exc" or pnode not in IN:
                 continue
-            for n in ast.walk(node.ast):
-                if isinstance(n, ast.Call) and isinstance(n.func, ast.Attribute) and isinstance(n.func.value, ast.Name) and n.func.value.id == sn and K is not None:
-                    m = K.lookup(n.func.attr)
-                    if m and m[1] == "method" and m[2] in memo and memo[m[2]][2] and not memo[m[2]][1]:
-                        exc_dirty = True
-        res = (not IN.get(g.exit, False), not exc_dirty, mut[0])
-        memo[f] = res
+            out = transfer(pnode, IN[pnode])
+            if isinstance(out, dict):
+                out = out.get(lab, out.get(None))
+            xdirty = xdirty or bool(out)
+        res = (bool(IN.get(g.exit, False)), xdirty or exc_from_calls[0])
+        memo[key] = res
         return res
 
-    r = summ(fn)
-    return r[0] and r[1] and r[2]
+    nd, xd = run(fn, False, 0)
+    return (not nd) and (not xd) and mutated[0]
+
+
+def _is_reset_store(text: str, fld: str) -> bool:
+    """`self.f = []` / `x, self.f = self.f, []` — re-binding the accumulator to a fresh empty container."""
+    try:
+        st = ast.parse(text).body[0]
+    except SyntaxError:
+        return False
+    if not isinstance(st, ast.Assign):
+        return False
+    pairs = []
+    for t in st.targets:
+        if isinstance(t, ast.Tuple) and isinstance(st.value, ast.Tuple) and len(t.elts) == len(st.value.elts):
+            pairs += list(zip(t.elts, st.value.elts))
+        else:
+            pairs.append((t, st.value))
+    for t, v in pairs:
+        if isinstance(t, ast.Attribute) and t.attr == fld:
+            empty = (isinstance(v, (ast.List, ast.Dict, ast.Set, ast.Tuple)) and not (getattr(v, "elts", None) or getattr(v, "keys", None))) or (
+                isinstance(v, ast.Call) and isinstance(v.func, ast.Name) and v.func.id in ("list", "dict", "set") and not v.args
+            )
+            return bool(empty)
+    return False
+
+
+def _in_try(f, node) -> bool:
+    for t in ast.walk(f.node):
+        if isinstance(t, ast.Try) and t.handlers:
+            for s in t.body:
+                if node in list(ast.walk(s)):
+                    return True
+    return False
 
 
 def rule_pure(ctx) -> RuleResult:
@@ -164,7 +193,7 @@ def rule_pure(ctx) -> RuleResult:
         for e in sorted(effs, key=lambda e: (e.where, str(e.target))):
             ofn, otarget, otext = e.origin
             # accumulator idiom, judged at the outermost function of the owning class on the call chain
-            if otarget[0] == "field" and otarget[2] == 0 and e.kind == "mutate" and ofn.cls is not None:
+            if otarget[0] == "field" and otarget[2] == 0 and ofn.cls is not None and (e.kind == "mutate" or _is_reset_store(otext, otarget[1])):
                 owner = next((f for f in e.chain if f.cls is not None and (f.cls is ofn.cls or ofn.cls in f.cls.mro)), ofn)
                 Ko = owner.cls
                 ok = _reset_on_every_exit(ctx, owner, Ko, otarget[1], ana)
